@@ -3,6 +3,7 @@ package main
 import (
 	"fmt"
 	"net"
+	"os/exec"
 	"strings"
 	"syscall"
 	"time"
@@ -35,7 +36,26 @@ func waitLine(a *appchild.App, prefix string, d time.Duration) bool {
 	return false
 }
 
+// killedBySignal: the child died of the signal's default action — its SIGTERM handling was not
+// installed (yet): tars.Run starts serving before its signal goroutine has registered.
+func killedBySignal(a *appchild.App) bool {
+	if !a.WaitExit(2 * time.Second) {
+		return false
+	}
+	if ee, ok := a.ExitErr.(*exec.ExitError); ok {
+		if ws, ok := ee.Sys().(syscall.WaitStatus); ok {
+			return ws.Signaled() && ws.Signal() == syscall.SIGTERM
+		}
+	}
+	return false
+}
+
 func appShutdownScenario(how string, udp bool, rep int) {
+	appShutdownScenarioWait(how, udp, rep, 300*time.Millisecond)
+}
+
+// preSignal: how long the application has been serving before it is told to stop.
+func appShutdownScenarioWait(how string, udp bool, rep int, preSignal time.Duration) {
 	a, err := appchild.Start(appchild.Config{UDP: udp, GracedownMs: 30000, MaxRoutine: []int{0, 2}[rep%2]})
 	if err != nil {
 		if a != nil {
@@ -69,7 +89,7 @@ func appShutdownScenario(how string, udp bool, rep int) {
 	}
 	slow := make(chan res, 1)
 	id := int32(11 + rep)
-	holdMs := 1800
+	holdMs := 1800 + int(preSignal/time.Millisecond)
 	go func() {
 		r, err := appchild.Exchange(c, "tcp", a.TCPObj, "sleep", id, []byte(fmt.Sprint(holdMs)), 25*time.Second)
 		slow <- res{r, err}
@@ -78,6 +98,8 @@ func appShutdownScenario(how string, udp bool, rep int) {
 		run.Inconclusive("application child: the slow request did not start")
 		return
 	}
+	// an application that has just begun to serve may not have installed its signal handling yet
+	time.Sleep(preSignal)
 	t0 := time.Now()
 	if how == "admin-command" {
 		rsp, err := a.Call(a.AdminAddr, "tcp", "AdminObj", "shutdown", 77, nil, 8*time.Second)
@@ -89,6 +111,19 @@ func appShutdownScenario(how string, udp bool, rep int) {
 		a.Signal(syscall.SIGTERM)
 	}
 	r := <-slow
+	if (r.err != nil || r.rsp == nil) && how == "signal" && killedBySignal(a) {
+		// death by the signal's default action is no graceful shutdown gone wrong: the handler was not
+		// installed.  Once more, with an application that has been serving for 3 s; if the signal
+		// still kills it, it has no signal handling
+		if preSignal < 3*time.Second {
+			run.Add("app_signal_before_handler_installed_retried", 1)
+			a.Kill()
+			appShutdownScenarioWait(how, udp, rep, 3*time.Second)
+			return
+		}
+		run.Violation("received-request-not-answered", locus+":no-signal-handling", "SIGTERM ended the application by its default action 3 s after it had begun to serve: no graceful shutdown on a signal", wit(nil))
+		return
+	}
 	if r.err != nil || r.rsp == nil || r.rsp.RequestID != id {
 		run.Violation("received-request-not-answered", locus, fmt.Sprintf("a request whose handler was running when the application was shut down (%s) got no response before its connection ended: %v (%.1f s after the shutdown began; the handler needs %d ms)", how, r.err, time.Since(t0).Seconds(), holdMs), wit(nil))
 		return
